@@ -86,6 +86,9 @@ highlight(struct vbi_search *s, cache_page *vtp,
 	s->start_subno = vtp->subno;
 	s->row[0] = LAST_ROW + 1;
 	s->col[0] = 0;
+	/* Nothing left before a match at the very start of the page. */
+	s->row[1] = FIRST_ROW - 1;
+	s->col[1] = 0;
 
 	for (i = FIRST_ROW; i < LAST_ROW; i++) {
 		vbi_char *acp = &pg->text[i * pg->columns];
@@ -310,7 +313,9 @@ search_page_rev(cache_page *vtp, vbi_bool wrapped, void *p)
 		acp = &s->pg.text[i * s->pg.columns];
 
 		for (j = 0; j < 40; acp++, j++) {
-			if (i == row && j >= s->col[1])
+			/* NB col[1] can point at the right half of a double
+			   width character in column 39, which we skip below. */
+			if (i > row || (i == row && j >= s->col[1]))
 				goto break2;
 
 			if (acp->size == VBI_DOUBLE_WIDTH
